@@ -101,6 +101,9 @@ pub fn catch<T>(f: impl FnOnce() -> T) -> Result<T, String> {
 }
 
 pub fn quiet_panics() {
+    if std::env::var("MVH_LOUD").is_ok() {
+        return;
+    }
     std::panic::set_hook(Box::new(|_| {}));
 }
 
